@@ -9,6 +9,7 @@
 import Rl.Direct
 import Rl.Spec.Direct
 import Rl.Lemmas.Direct
+import Rl.Lemmas.DirectGap
 open Rl Rl.Direct Rl.Spec.Direct
 
 /-! ## backspaces -/
@@ -210,3 +211,209 @@ example : session charSeg none "ab\x08c\r\nd".toList = [.line "ac".toList, .line
 example : session charSeg (some validateBrackets) "(a\n)\nb".toList =
     [.line "(a\n)".toList, .line "b".toList, .eof] := by decide
 example : lines "a\r\n\nb".toList = [("a".toList, .crlf), ([], .lf), ("b".toList, .none)] := by decide
+
+/-! ## gap filling: arbitrary interleavings of text and backspaces -/
+
+/-- `apply_backspace_direct` is a left fold over the clusters of the input, for every input and every
+    lawful segmenter: starting from nothing kept, a cluster that is exactly U+0008 drops the last
+    cluster kept (and drops nothing when nothing is kept), every other cluster is appended
+    (`bsStep`); the result is the concatenation of what is kept.  This covers every interleaving of
+    text and backspaces. -/
+theorem C18_backspace_fold (S : Segmenter) (t : Text) :
+    applyBackspace S t = some ((S.seg t).foldl bsStep []).flatten := by
+  rw [C18_backspace, stackEval_fold]
+
+/-- What a read keeps is made of whole clusters of the input, in their original order, and none of
+    them is a backspace: a backspace never cuts a cluster in two, never reorders, never survives. -/
+theorem C18_backspace_keeps_clusters (S : Segmenter) (t : Text) :
+    ∃ kept : List Text, applyBackspace S t = some kept.flatten ∧ kept.Sublist (S.seg t) ∧ ∀ g ∈ kept, g ≠ [bs] :=
+  ⟨stackEval (S.seg t), C18_backspace S t, stackEval_sublist _, stackEval_no_bs_mem _⟩
+
+/-- `k` plain clusters followed by a run of `n` backspaces leave exactly the first `k - n` clusters
+    (nothing when `n ≥ k`: the extra backspaces remove nothing and do not panic).
+    Hypotheses: the input segments into `gs` followed by `n` backspace clusters, and no cluster of
+    `gs` is a backspace. -/
+theorem C18_backspace_run (S : Segmenter) (t : Text) (gs : List Text) (n : Nat)
+    (h : S.seg t = gs ++ List.replicate n [bs]) (hgs : ∀ g ∈ gs, g ≠ [bs]) :
+    applyBackspace S t = some (gs.take (gs.length - n)).flatten := by
+  rw [C18_backspace, h, stackEval_bs_run, stackEval_no_bs gs hgs]
+
+/-- A run of backspaces at least as long as everything before it (in clusters, backspaces included)
+    erases all of it and nothing more: the read returns what the rest of the line alone would give.
+    With `gs = []` this is "backspaces at the start of the line remove nothing". -/
+theorem C18_backspace_overrun (S : Segmenter) (t : Text) (gs more : List Text) (n : Nat)
+    (h : S.seg t = gs ++ List.replicate n [bs] ++ more) (hn : gs.length ≤ n) :
+    applyBackspace S t = some (stackEval more).flatten := by
+  rw [C18_backspace, h, stackEval_overrun gs more n (Nat.le_trans (stackEval_length_le gs) hn)]
+
+/-- the same two facts on the loop of `apply_backspace_direct` itself, for an arbitrary cluster
+    sequence (no segmenter involved) -/
+theorem C18_backspace_loop_run (gs more : List Text) (n : Nat) (hn : gs.length ≤ n) :
+    applyGo id (gs ++ List.replicate n [bs] ++ more) [] [] = applyGo id more [] [] := by
+  rw [applyGo_id, applyGo_id, stackEval_overrun gs more n (Nat.le_trans (stackEval_length_le gs) hn)]
+
+example : Rl.charSeg.seg "ab\x08\x08\x08c".toList =
+    [['a'], ['b']] ++ List.replicate 3 [bs] ++ [['c']] ∧ [['a'], ['b']].length ≤ 3 := by decide
+example : applyBackspace Rl.charSeg "ab\x08\x08\x08c".toList = some ['c'] := by decide
+example : Rl.charSeg.seg "abc\x08\x08".toList = [['a'], ['b'], ['c']] ++ List.replicate 2 [bs] ∧
+    ∀ g ∈ [['a'], ['b'], ['c']], g ≠ [bs] := by decide
+
+/-! ## gap filling: accumulation under a validator, closed form -/
+
+/-- "With a validator, lines are accumulated (terminators kept) until the validator accepts", as an
+    equation on the model's read.  If the reader will deliver the raw lines `pre`, then `l`, then
+    `rest` (raw = with their terminators, as `read_line` returns them), no backspace occurs in
+    `pre` and `l`, the validator says Incomplete on the text up to and including the content of each
+    line of `pre` and Valid on the text up to the content of `l`, then the read returns the input
+    consumed byte for byte (`pre.flatten`: LF and CRLF terminators kept as they were) followed by
+    `l` without its own terminator, and leaves exactly `rest` for the next call. -/
+theorem C18_validator_accumulates (S : Segmenter) (V : Text → Verdict) (pre : List Text) (l : Text)
+    (rest : List Text) (hne : ∀ x ∈ pre, x ≠ []) (hl : l ≠ []) (hbs : bs ∉ pre.flatten ++ l)
+    (hinc : ∀ p x q, pre = p ++ x :: q → V (p.flatten ++ (lineOf x).1) = .incomplete)
+    (hval : V (pre.flatten ++ (lineOf l).1) = .valid) :
+    readlineDirect S (some V) (pre ++ l :: rest) = (.line (pre.flatten ++ (lineOf l).1), rest) := by
+  have := readlineDirectW_accum S V pre l rest [] hne hl (by simpa using hbs)
+    (by simpa using hinc) (by simpa using hval)
+  simpa [readlineDirect] using this
+
+/-- a raw line is its content followed by its terminator (so `pre.flatten` above is the contents
+    joined by the terminators that were in the input) -/
+theorem C18_raw_line (l : Text) : (lineOf l).1 ++ (lineOf l).2.text = l := lineOf_text l
+
+example : readlineDirect charSeg (some validateBrackets) ["(a\r\n".toList, "b\n".toList, ")\n".toList, "c".toList] =
+    (.line "(a\r\nb\n)".toList, ["c".toList]) := by decide
+
+/-- An input the validator never accepts (and never fails on) is lost: the only thing the
+    application sees is end of file, whatever was accumulated is dropped. -/
+theorem C18_validator_never_accepts (S : Segmenter) (V : Text → Verdict)
+    (hV : ∀ x, V x ≠ .valid ∧ V x ≠ .error) (stream : Text) :
+    session S (some V) stream = [.eof] := by
+  unfold session
+  rcases readlineDirectW_never_valid S V hV (readLines stream) [] with h | ⟨r, _, p, hp⟩
+  · simp [sessionW, h]
+  · exact absurd rfl (C18_validator_lines_ne stream [] (by rw [hp]; simp))
+
+example : session charSeg (some validateBrackets) "(a\nb\n".toList = [.eof] := by decide
+
+/-- With a validator a backspace at the start of a continuation line is applied to the accumulated
+    text, so it removes the line break that was kept (model = spec; recorded as an observation). -/
+example : session charSeg (some validateBrackets) "(\n\x08)\n".toList = [.line "()".toList, .eof] := by decide
+
+/-! ## gap filling: end of file is final -/
+
+/-- `n` successive calls of `readline` on the non-terminal path, NOT stopping at end of file
+    (`session` stops at the first one): results in order -/
+def C18_reads (S : Segmenter) (V : Option (Text → Verdict)) : Nat → List Text → List DResult
+  | 0, _ => []
+  | n + 1, ls => (readlineDirect S V ls).1 :: C18_reads S V n (readlineDirect S V ls).2
+
+theorem C18_reads_nil (S : Segmenter) (V : Option (Text → Verdict)) (n : Nat) :
+    C18_reads S V n [] = List.replicate n .eof := by
+  induction n with
+  | zero => rfl
+  | succ n ih => simp [C18_reads, readlineDirect, readlineDirectW, ih, List.replicate_succ]
+
+/-- An application that keeps calling `readline` after the input is exhausted: the first calls
+    return the lines (one each, terminator stripped, backspaces applied), the final unterminated
+    line included exactly once, and every later call — however many — reports end of file. -/
+theorem C18_eof_forever (S : Segmenter) (stream : Text) (m : Nat) :
+    C18_reads S none ((lines stream).length + m) (readLines stream) =
+      (lines stream).map (fun l => .line (removeBackspaces S l.1)) ++ List.replicate m .eof := by
+  have key : ∀ ls : List Text, (∀ l ∈ ls, l ≠ []) →
+      C18_reads S none (ls.length + m) ls =
+        ls.map (fun l => .line (removeBackspaces S (lineOf l).1)) ++ List.replicate m .eof := by
+    intro ls hne
+    induction ls with
+    | nil => simpa using C18_reads_nil S none m
+    | cons l ls ih =>
+      have hl : l ≠ [] := hne l (by simp)
+      have e : (l :: ls).length + m = (ls.length + m) + 1 := by simp; omega
+      rw [e]
+      simp only [C18_reads, readlineDirect, readlineDirectW_none S [] l ls hl, List.nil_append,
+        List.map_cons, List.cons_append]
+      rw [← ih (fun x hx => hne x (by simp [hx]))]
+  have := key (readLines stream) (C18_validator_lines_ne stream)
+  rw [← C18_read_lines, List.length_map, List.map_map]
+  exact this
+
+/-- With or without a validator: once a read has reported end of file, every later read reports
+    end of file too. -/
+theorem C18_eof_final (S : Segmenter) (V : Option (Text → Verdict)) (ls : List Text)
+    (hne : ∀ l ∈ ls, l ≠ []) (h : (readlineDirect S V ls).1 = .eof) (n : Nat) :
+    C18_reads S V n (readlineDirect S V ls).2 = List.replicate n .eof := by
+  rw [show (readlineDirect S V ls).2 = [] from readlineDirectW_eof_rest S V ls hne [] h]
+  exact C18_reads_nil S V n
+
+example : C18_reads charSeg none 5 (readLines "a\r\nb".toList) =
+    [.line ['a'], .line ['b'], .eof, .eof, .eof] := by decide
+
+/-! ## gap filling: backspace CHARACTERS under the UAX #29 segmenter
+
+The theorems above speak of clusters that are exactly U+0008, for every lawful segmenter (a lawful
+segmenter may glue U+0008 to a neighbour, and then the code does not treat it as a backspace).
+For the segmenter the driver runs (`uaxSeg`, extended grapheme clusters) with U+0008 classified
+Control — its Grapheme_Cluster_Break value — every backspace character is a cluster of its own
+(GB4/GB5), so the statements become statements about characters. -/
+
+/-- a backspace character is always a cluster by itself, and the text before it and the text after
+    it are segmented as if they stood alone -/
+theorem C18_uax_backspace_alone (cls : Char → String) (hc : gcbBase (cls bs) = "Control") (a b : Text) :
+    (uaxSeg cls).seg (a ++ bs :: b) = (uaxSeg cls).seg a ++ [bs] :: (uaxSeg cls).seg b :=
+  uaxSeg_split cls bs hc a b
+
+/-- A text without backspace followed by `n` backspace characters: the read returns the text
+    without its last `n` extended grapheme clusters — whole clusters, whatever their byte length —
+    and returns the empty text (no panic) when `n` exceeds the number of clusters. -/
+theorem C18_uax_backspace_run (cls : Char → String) (hc : gcbBase (cls bs) = "Control") (a : Text)
+    (ha : bs ∉ a) (n : Nat) :
+    applyBackspace (uaxSeg cls) (a ++ List.replicate n bs) =
+      some (((uaxSeg cls).seg a).take (((uaxSeg cls).seg a).length - n)).flatten := by
+  cases n with
+  | zero =>
+    simp only [List.replicate_zero, List.append_nil, Nat.sub_zero, List.take_length]
+    rw [C18_backspace_id _ _ (seg_ne_bs _ a ha), (uaxSeg cls).flatten_eq]
+  | succ n =>
+    have h := uaxSeg_split_run cls bs hc a [] n
+    have hnil : (uaxSeg cls).seg [] = [] := rfl
+    simp only [List.append_nil, hnil] at h
+    exact C18_backspace_run _ _ _ _ h (seg_ne_bs _ a ha)
+
+/-- A run of backspace characters at least as long as the text before it (counted in clusters)
+    erases exactly that text: the read returns what the rest of the line alone gives.  With
+    `a = []`: backspaces at the start of a line remove nothing. -/
+theorem C18_uax_backspace_overrun (cls : Char → String) (hc : gcbBase (cls bs) = "Control") (a b : Text)
+    (n : Nat) (hn : ((uaxSeg cls).seg a).length ≤ n + 1) :
+    applyBackspace (uaxSeg cls) (a ++ List.replicate (n + 1) bs ++ b) = applyBackspace (uaxSeg cls) b := by
+  rw [C18_backspace_overrun _ _ _ _ _ (uaxSeg_split_run cls bs hc a b n) hn, C18_backspace]
+
+-- Non-vacuity of `gcbBase (cls bs) = "Control"`: the driver's `cls` is the `gcb` column of the
+-- `charinfo` lines, `Control` for U+0008; `String.splitOn` inside `gcbBase` does not reduce in the
+-- kernel, so there is no `example … := by decide` (same form of hypothesis as `C04_uaxSeg_nlAlone`).
+
+/-- Each backspace character removes exactly the cluster kept last before it, for an arbitrary text
+    `t` in front (which may itself contain backspaces): if the read of `t` keeps the clusters
+    `kept`, the read of `t` followed by one backspace keeps `kept` without its last element. -/
+theorem C18_uax_backspace_step (cls : Char → String) (hc : gcbBase (cls bs) = "Control") (t : Text) :
+    applyBackspace (uaxSeg cls) t = some (stackEval ((uaxSeg cls).seg t)).flatten ∧
+    applyBackspace (uaxSeg cls) (t ++ [bs]) = some (stackEval ((uaxSeg cls).seg t)).dropLast.flatten := by
+  refine ⟨C18_backspace _ t, ?_⟩
+  have h := uaxSeg_split cls bs hc t []
+  have hnil : (uaxSeg cls).seg [] = [] := rfl
+  rw [hnil] at h
+  rw [C18_backspace, h, C18_backspace_pop]
+
+/-- `C18_validator_accumulates` for the first read of a session over a stream -/
+theorem C18_validator_accumulates_session (S : Segmenter) (V : Text → Verdict) (stream : Text)
+    (pre : List Text) (l : Text) (rest : List Text) (hs : readLines stream = pre ++ l :: rest)
+    (hbs : bs ∉ pre.flatten ++ l)
+    (hinc : ∀ p x q, pre = p ++ x :: q → V (p.flatten ++ (lineOf x).1) = .incomplete)
+    (hval : V (pre.flatten ++ (lineOf l).1) = .valid) :
+    (session S (some V) stream).head? = some (.line (pre.flatten ++ (lineOf l).1)) := by
+  have hne := C18_validator_lines_ne stream
+  rw [hs] at hne
+  have h := C18_validator_accumulates S V pre l rest (fun x hx => hne x (by simp [hx]))
+    (hne l (by simp)) hbs hinc hval
+  unfold session
+  rw [hs]
+  unfold readlineDirect at h
+  simp [sessionW, h]
